@@ -5,6 +5,7 @@ import (
 	"go/token"
 	"go/types"
 	"sort"
+	"strconv"
 	"strings"
 
 	"golang.org/x/tools/go/ssa"
@@ -304,27 +305,59 @@ func exprShape(v ssa.Value, d int, seen map[ssa.Value]bool) string {
 	case *ssa.ChangeType:
 		return exprShape(x.X, d-1, seen)
 	case *ssa.Phi:
+		// the set of non-phi values that can flow in (nested phis flattened; the branch conditions that select
+		// them are conditions of the function in their own right)
 		seen[v] = true
-		var parts []string
-		for i, e := range x.Edges {
-			cond := ""
-			if i < len(x.Block().Preds) {
-				p := x.Block().Preds[i]
-				// the nearest branch deciding this edge
-				for b := p; b != nil; b = b.Idom() {
-					if iff, ok := b.Instrs[len(b.Instrs)-1].(*ssa.If); ok && len(b.Succs) == 2 {
-						cond = exprShape(iff.Cond, d-1, seen)
-						break
-					}
-				}
+		leaves := map[string]bool{}
+		var flat func(p *ssa.Phi)
+		visited := map[*ssa.Phi]bool{}
+		flat = func(p *ssa.Phi) {
+			if visited[p] {
+				return
 			}
-			parts = append(parts, exprShape(e, d-1, seen)+" if~"+cond)
+			visited[p] = true
+			for _, e := range p.Edges {
+				if q, ok := e.(*ssa.Phi); ok {
+					flat(q)
+					continue
+				}
+				leaves[exprShape(e, d-1, seen)] = true
+			}
 		}
+		flat(x)
 		delete(seen, v)
+		var parts []string
+		for l := range leaves {
+			parts = append(parts, l)
+		}
 		sort.Strings(parts)
-		return "phi{" + strings.Join(parts, " | ") + "}"
+		return "φ{" + strings.Join(parts, " | ") + "}"
 	case *ssa.Parameter:
 		return "param:" + x.Name()
+	case *ssa.Call:
+		name := ""
+		if b, ok := x.Call.Value.(*ssa.Builtin); ok {
+			name = b.Name()
+		} else if f := x.Call.StaticCallee(); f != nil {
+			name = f.Name()
+		} else if x.Call.IsInvoke() {
+			name = x.Call.Method.Name()
+		} else {
+			return "<" + typeName(v.Type()) + ">"
+		}
+		seen[v] = true
+		var args []string
+		for _, a := range x.Call.Args {
+			args = append(args, exprShape(a, d-1, seen))
+		}
+		delete(seen, v)
+		return name + "(" + strings.Join(args, ",") + ")"
+	case *ssa.IndexAddr:
+		return exprShape(x.X, d-1, seen) + "[" + exprShape(x.Index, d-1, seen) + "]"
+	case *ssa.FieldAddr:
+		return "&." + fieldNameOf(x.X.Type(), x.Field)
+	case *ssa.Extract:
+		return exprShape(x.Tuple, d-1, seen) + "#" + strconv.Itoa(x.Index)
 	}
 	return "<" + typeName(v.Type()) + ">"
 }
@@ -334,4 +367,31 @@ func fieldNameOf(t types.Type, i int) string {
 		return st.Field(i).Name()
 	}
 	return "?"
+}
+
+// LinearTerms flattens the additions and subtractions of v into a sorted list of
+// signed term shapes ("+.TempOffset", "-.DataOffset", ...): two sums that differ
+// only in the order of their terms compare equal.
+func LinearTerms(v ssa.Value) []string {
+	var out []string
+	var rec func(x ssa.Value, neg bool)
+	rec = func(x ssa.Value, neg bool) {
+		if b, ok := x.(*ssa.BinOp); ok && (b.Op == token.ADD || b.Op == token.SUB) {
+			rec(b.X, neg)
+			rec(b.Y, neg != (b.Op == token.SUB))
+			return
+		}
+		if c, ok := x.(*ssa.Convert); ok {
+			rec(c.X, neg)
+			return
+		}
+		sign := "+"
+		if neg {
+			sign = "-"
+		}
+		out = append(out, sign+ExprShape(x))
+	}
+	rec(v, false)
+	sort.Strings(out)
+	return out
 }
